@@ -86,6 +86,10 @@ def run(ctx):
     t = batch(ctx, chosen, "main", [])
     batch(ctx, chosen[-3:], "loadbatch1", ["--load-batch", "1"])
     batch(ctx, chosen[-3:], "big", ["--bigints"])
+    # database ids start at 0 (a legal id), and dump targets named in an order that is not sorted by name
+    two = [c for c in chosen if len(c["graphs"]) >= 2][:20] + chosen[-3:]
+    batch(ctx, chosen[:30] + [dict(c, batch=1) for c in chosen[:10]] + chosen[-3:], "zeroids", ["--zero-ids"])
+    batch(ctx, two, "reversed", ["--reverse-targets"])
     nt = 0
     sample = None
     for ln in open(t):
@@ -102,7 +106,7 @@ def run(ctx):
     ctx.cov["rule"] = ("DumpLoad.tla is checked for every configuration with <=3 nodes, <=2 relationships, shard/batch 1..3 and every corrupt "
                        "fragment position; on the real code %d of the %d TLC-enumerated configurations (all in thorough) plus three larger "
                        "ones run Dump -> Load -> Verify on the fake database with the value catalogue, once more with load batch size 1 and "
-                       "once with integers beyond 2^53; Verify is also run after adding a node, changing a kind and removing an edge.  "
+                       "once with integers beyond 2^53, once with database ids starting at 0 (and batch size 1), once with the dump targets named in reverse order; Verify is also run after adding a node, changing a kind and removing an edge.  "
                        "non-trivial = a graph with at least two relationships" % (len(chosen) - 3, len(allcfgs)))
 
 
